@@ -235,3 +235,92 @@ def damage(s, rng):
     else:
         toks.insert(i, rng.choice(VOCAB))
     return ' '.join(toks)
+
+
+# ---------------------------------------------------------------- abstract descriptions (C01 and friends)
+
+LAYOUTS = ['TRS_desc', 'desc_STR', 'S_desc_TR', 'TR_desc_S']
+
+CLEAN_BLOCKS = [
+    "NE/4", "N/2", "W/2 SE/4", "Lots 1 - 3", "Lot 2", "Lots 1, 2, NE/4", "ALL", "S/2 N/2", "NE/4 NW/4, S/2",
+    "N½NE¼", "That part lying north of the river", "the east 40 acres",
+    "A tract beginning at the northwest corner; thence S 89°15' E 200 feet to the point of beginning",
+    "Lot 1 (39.8), Lot 2 [40.1]", "E/2, less and except the wellbore", "SW/4 insofar as it covers the surface",
+    "Lots 3 & 4; S/2 NW/4", "NW/4 including all minerals",
+]
+
+
+def rand_abs_desc(rng, max_tr=3, max_sg=3, max_items=3):
+    groups = []
+    for _ in range(rng.range(1, max_tr)):
+        t = rng.choice([1, 7, 14, 97, 154, 100, 9, 23])
+        r = rng.choice([1, 3, 7, 14, 97, 101, 58, 22])
+        ns = rng.choice('NS')
+        ew = rng.choice('EW')
+        sgs = []
+        for _ in range(rng.range(1, max_sg)):
+            items = rand_items(rng, max_items, 36, allow_desc=False)
+            sgs.append((items, rng.choice(CLEAN_BLOCKS)))
+        groups.append((t, ns, r, ew, sgs))
+    return groups
+
+
+def expected_tracts(groups):
+    out = []
+    for (t, ns, r, ew, sgs) in groups:
+        for items, block in sgs:
+            for s in expand_items(items):
+                out.append((f"{t}{ns.lower()}{r}{ew.lower()}{s:02d}", block))
+    return out
+
+
+def render_sec_group(items, rng, colon=True):
+    return render_items(items, rng, ['Section ', 'Sec ', 'Sec. ', 'Sections ', 'Secs ', '§ '], pad=True, repeat_word=False)
+
+
+def render_desc(groups, layout, rng, canonical_tr=False, colons=True):
+    """render an abstract description in one of the four documented layouts"""
+    parts = []
+    for gi, (t, ns, r, ew, sgs) in enumerate(groups):
+        tr = canon_twprge(t, ns, r, ew) if canonical_tr else rng.choice(twprge_spellings(t, ns, r, ew))
+        sg_txt = []
+        for items, block in sgs:
+            sec = render_sec_group(items, rng)
+            if layout in ('TRS_desc', 'S_desc_TR'):
+                conn = ': ' if colons else rng.choice([': ', ' ', ', '])
+                sg_txt.append(sec + conn + block)
+            else:
+                conn = rng.choice([' of ', ', ', ' in ', ' of '])
+                sg_txt.append(block + conn + sec)
+        sep = rng.choice([', ', '; ', '\n', ',\n'])
+        body = sep.join(sg_txt)
+        if layout in ('TRS_desc', 'TR_desc_S'):
+            g = tr + rng.choice([', ', '\n', ' ', ': ']) + body
+        else:
+            g = body + rng.choice([', ', '\n', ', in ', ' of ']) + tr
+        parts.append(g)
+    return rng.choice(['\n', '; ', '\n\n', ', ']).join(parts)
+
+
+BOOL_SETTINGS = ['parse_qq', 'clean_qq', 'sec_colon_required', 'sec_colon_cautious', 'suppress_lot_divs', 'ocr_scrub',
+                 'segment', 'break_halves', 'sec_within']
+
+
+def rand_config(rng, allow_layout=True, max_settings=4):
+    parts = []
+    for _ in range(rng.below(max_settings + 1)):
+        k = rng.below(10)
+        if k < 6:
+            a = rng.choice(BOOL_SETTINGS)
+            parts.append(rng.choice([a, a + '.True', a + '.False', a + '=False']))
+        elif k == 6:
+            parts.append(rng.choice(['n', 's', 'e', 'w', 'default_ns.s', 'default_ew.e', 'default_ns.North']))
+        elif k == 7 and allow_layout:
+            parts.append(rng.choice(LAYOUTS + ['copy_all', 'layout.TRS_desc']))
+        elif k == 8:
+            parts.append(rng.choice(['qq_depth.1', 'qq_depth.2', 'qq_depth_min.1', 'qq_depth_min.3', 'qq_depth_max.2', 'qq_depth_max.3']))
+        else:
+            parts.append(rng.choice(['parse_qq', 'clean_qq']))
+    if not parts:
+        return None if rng.chance(1, 2) else ''
+    return rng.choice([',', ', ', ';']).join(parts)
